@@ -135,7 +135,7 @@ func dkey(d []int) string {
 func parseGraphs(raw map[string][][5]int, n int) *graphs {
 	g := &graphs{n: n, by: map[string]*dgraph{}}
 	for key, edges := range raw {
-		dg := &dgraph{trans: make([][]result, n+1)}
+		dg := &dgraph{trans: make([][]result, n+1), d: []int{}}
 		if key != "" {
 			for _, s := range strings.Split(key, ",") {
 				x, _ := strconv.Atoi(s)
@@ -583,13 +583,13 @@ func namespaceTable(tab *table, extra bool) *compact.NamespaceTable {
 	return nt
 }
 
-// encodePostingList runs the real encoder and returns the marshalled list (header + blocks).
-func encodePostingList(token string, ranks []int, tab *table, nt *compact.NamespaceTable, st *layoutStats) ([]byte, string) {
+// encodePostingList runs the real encoder and returns the marshalled list (header + blocks).  pl is reused
+// from one list to the next, as compact's index builder does.
+func encodePostingList(pl *compact.PostingList, token string, ranks []int, tab *table, nt *compact.NamespaceTable, st *layoutStats) ([]byte, string) {
 	var ids compact.FeatureIDs
 	for _, r := range ranks {
 		ids.Append(nt.EncodeID(tab.ids[r]))
 	}
-	var pl compact.PostingList
 	pl.Fill(token, ids.Begin())
 	if pl.Header.Features != len(ranks) {
 		return nil, fmt.Sprintf("PostingList.Fill: Header.Features = %d for %d ids", pl.Header.Features, len(ranks))
@@ -704,11 +704,12 @@ func buildIndex(kind string, v variant, idx map[string][]int, tab *table, st *la
 		nt := namespaceTable(tab, v.ExtraNS)
 		p := &postingIndex{lists: map[string][]byte{}, nt: nt}
 		var tokens []string
+		var pl compact.PostingList
 		for _, tok := range sortedTokens(idx) {
 			if len(idx[tok]) == 0 && !v.KeepEmpty {
 				continue
 			}
-			b, bad := encodePostingList(tok, sortedCopy(idx[tok]), tab, nt, st)
+			b, bad := encodePostingList(&pl, tok, sortedCopy(idx[tok]), tab, nt, st)
 			if bad != "" {
 				return nil, bad
 			}
